@@ -13,6 +13,18 @@ COMMON_NOTE = ("Trusted: Lean 4.33.0 kernel; axioms per theorem as printed by #p
 
 # property id -> dict(level, text, technique, note, design_ref)
 CLAIMED = {
+    "C14": dict(
+        level="proof",
+        text="Lean refinement theorems for IndexedProperties: refine_insert / refine_remove / refine_contains / refine_push_dense / "
+             "refine_to_sparse (each storage operation, from any of the five variants and through every variant switch, is the "
+             "corresponding operation on the finite map index -> observable descriptor, incl. the returned flags) and "
+             "storage_independent (no sequence of operations distinguishes two storages that denote the same map). Tied to the code by a "
+             "line-by-line correspondence on a real PropertyMap (incl. the active variant) and by the property's own differential: the same "
+             "content built through six recipes landing in different storage forms, same array operations, structural dumps compared after "
+             "every step and with the array-like form.",
+        technique="Lean 4 refinement proofs (5 storage variants -> finite map) + PropertyMap correspondence + cross-storage JS differential",
+        note="Array.prototype algorithms are compared across storage forms, not specified in Lean; key-order theorem not proved yet.",
+    ),
     "C05": dict(
         level="proof",
         text="Lean theorems about a model of the three optimizer passes (post-order walker with the 10-iteration cap, constant folding "
